@@ -122,6 +122,16 @@ func c18Measure(cs c18Case) (allocs float64, bound float64, skipped bool) {
 			src.SetSample(i, vals[(i*7+i/len(vals))%len(vals)])
 		}
 		return dyn.AllocsPerRun(c18Runs, func() { dyn.Conv(src, dst) }), 0, false
+	case "conv-alt":
+		// one source converted into destinations of two element types alternately (state kept between calls
+		// for the last type pair only)
+		src := mkBuf(s, L)
+		d1 := mkBuf(d, L)
+		d2 := mkBuf(cs.Variant, L) // Variant holds the second destination type
+		for i := 0; i < src.Len(); i++ {
+			src.SetSample(i, dyn.Tok(s, tk(int64(i+1))))
+		}
+		return dyn.AllocsPerRun(c18Runs, func() { dyn.Conv(src, d1); dyn.Conv(src, d2) }), 0, false
 	case "conv-aliased":
 		// source and destination share storage (same element type): the very same buffer (variant 0),
 		// the destination one frame in front of the source (1), one frame behind it (2)
@@ -210,6 +220,12 @@ func c18Measure(cs c18Case) (allocs float64, bound float64, skipped bool) {
 			p.Put(p.Get())
 			return p.AllocsCycleByValue(runs), 0, false
 		}
+		if cs.Variant == 3 { // two buffers held together and put back one after the other
+			if C*L > 1<<16 {
+				return 0, 0, true
+			}
+			return p.AllocsCyclePair(runs), 0, false
+		}
 		return p.AllocsCycle(runs), 0, false
 	}
 	panic("unknown op " + cs.Op)
@@ -278,7 +294,18 @@ func init() {
 									}
 								}
 								if op == "pool" {
-									cases = append(cases, c18Case{Op: op, S: tn(t), D: tn(t), C: C, L: L, Variant: 1}, c18Case{Op: op, S: tn(t), D: tn(t), C: C, L: L, Variant: 2})
+									cases = append(cases, c18Case{Op: op, S: tn(t), D: tn(t), C: C, L: L, Variant: 1}, c18Case{Op: op, S: tn(t), D: tn(t), C: C, L: L, Variant: 2}, c18Case{Op: op, S: tn(t), D: tn(t), C: C, L: L, Variant: 3})
+								}
+							}
+						}
+						if C == 2 && !spare && (L == 64 || L == 1100) { // one source, two destination types of the same kind, alternately
+							for s := 0; s < dyn.NB; s++ {
+								for d1 := 0; d1 < dyn.NB; d1++ {
+									for d2 := d1 + 1; d2 < dyn.NB; d2++ {
+										if dyn.Types[d1].Kind == dyn.Types[d2].Kind {
+											cases = append(cases, c18Case{Op: "conv-alt", S: tn(s), D: tn(d1), C: C, L: L, Variant: d2})
+										}
+									}
 								}
 							}
 						}
